@@ -6,7 +6,8 @@ C08 — the happiness value equals the size of a maximum server/share matching.
 Model: `Tahoe/Happiness/{Graph,Flow}.lean` (transcription of `util/happinessutil.py` and of the flow
 code of `immutable/happiness_upload.py`: re-indexing, adjacency lists, BFS with colour / predecessor
 / distance arrays and a FIFO queue, 0/±1 flow matrix, residual network rebuilt every round; the
-`while` loops run on fuel `len(graph)`, which the lemmas show is never exhausted).
+`while` loops run on fuel `len(graph)`, which the lemmas show is never exhausted; `mergeServers`,
+`sharesByServer` and `effectiveHappiness`, the uploader's per-round happiness test).
 
 `rel m` is the list of (server, share) pairs of the sharemap `m`; `IsMatching E M` says `M` is a
 list of edges of `E` no two of which share a server or a share; `IsMaxMatchingSize E k` says some
@@ -14,7 +15,8 @@ matching has `k` edges and none has more; `maxMatchingBrute E` is the executable
 sublists of `E`.  A sharemap is a list of `(share, list of servers)`: *any* list, so every theorem
 holds for every insertion order of the dict and every iteration order of its sets.
 Helper lemmas: `Tahoe/Happiness/Lemmas*.lean` (loop invariant "the flow matrix is the indicator of
-a matching", BFS soundness/completeness, alternating-path augmentation, König cover argument).
+a matching", BFS soundness/completeness, alternating-path augmentation, König cover argument,
+`LemmasMerge.lean` for the callers).  No `_partial` theorem.
 
 ## Coverage of the statement
 
